@@ -97,6 +97,10 @@ class TLCRun:
                     try:
                         yield json.loads(json.loads(line))
                     except ValueError as e:
+                        if not line.endswith("\n"):
+                            # the last line of a process that was stopped (time limit of a
+                            # simulation run): incomplete, not an emission
+                            break
                         self.error = "undecodable emission line: %s (%r)" % (e, line[:200])
                         break
                 else:
